@@ -1255,11 +1255,15 @@ def sweep_probes(s, what):
         # $GENERATE modifiers ${offset,width,base}: boundary offsets and widths on both sides (labels of
         # 63 / 64, strings of 255 / 256, the width bound 131070 / 131071, 10^8, more digits than int() takes)
         mods = ["0", "1", "62", "63", "64", "254", "255", "256", "65535", "65536", "131070", "131071", "100000000", "4294967296", "1" * 4300, "1" * 4301]
+        heavy = ("65535", "65536", "131070")      # accepted widths that cost a few tenths of a second each
         for wv in mods:
             for base in ("d", "x", "n", "N", "o", "X", "z"):
+                if wv in heavy and base != "d":
+                    continue
                 yield "zone_text", [zhead + "$GENERATE 1-2 x${0," + wv + "," + base + "} A 10.0.0.1\n", 1, 1, 0]
-                yield "zone_text", [zhead + "$GENERATE 1-2 x$ TXT ${0," + wv + "," + base + "}\n", 1, 1, 0]
-            for ov in ("0," + wv, wv, "-" + wv, "+" + wv + ",2", wv + ",0,x"):
+                if wv not in heavy:
+                    yield "zone_text", [zhead + "$GENERATE 1-2 x$ TXT ${0," + wv + "," + base + "}\n", 1, 1, 0]
+            for ov in ((wv, "-" + wv, "+" + wv + ",2", wv + ",0,x") if wv in heavy else ("0," + wv, wv, "-" + wv, "+" + wv + ",2", wv + ",0,x")):
                 yield "zone_text", [zhead + "$GENERATE 1-2 x${" + ov + "} A 10.0.0.1\n", 1, 1, 0]
                 yield "read_rrsets", ["$GENERATE 1-2 x$ 300 IN TXT ${" + ov + "}", 4, 1, 0]
         # every line of tests/example*: each of its first six tokens replaced
